@@ -101,7 +101,7 @@ var (
 	ceInts  = []string{"0", "1", "-1", "42", "9007199254740993", "9223372036854775807", "-9223372036854775808", "255"}
 	ceReals = []string{"0.5", "-1.25", "3.0", "1.0e-300", "1.7976931348623157e308", "0.1", "-0.0", "123456789.125", "2.5e15"}
 	ceTexts = []string{"''", "'x'", "'it''s'", "'héllo ✓ 日本'", "'123'", "'1.0'", "'NULL'", "' lead and trail '", "'line1\nline2'"}
-	ceBlobs = []string{"x''", "x'00'", "x'00ff10'", "x'deadbeef'", "x'7465787400'", "x'ffffffffffffffffffffffffffffffffffffffff'"}
+	ceBlobs = []string{"x''", "x'00'", "x'68656c6c6f'", "x'00ff10'", "x'deadbeef'", "x'7465787400'", "x'ffffffffffffffffffffffffffffffffffffffff'"}
 )
 
 func ceLit(r *rand.Rand, class string) string {
@@ -253,11 +253,44 @@ func (s ceSnap) clone() ceSnap {
 	return o
 }
 
+// Tables beyond a and b (only in the extra scenarios) are dumped with their columns discovered at
+// dump time; ceDynCols remembers the columns seen by the latest dump.
+var ceDynTables []string
+var ceDynCols = map[string][]string{}
+
+func ceColsOf(t string) []string {
+	if c, ok := ceCols[t]; ok {
+		return c
+	}
+	return ceDynCols[t]
+}
+
+func ceAllTables() []string { return append([]string{"a", "b"}, ceDynTables...) }
+
 func ceDump(ro *sql.DB) (ceSnap, error) {
 	out := ceSnap{}
-	for _, t := range []string{"a", "b"} {
+	for _, t := range ceAllTables() {
+		cols, static := ceCols[t]
+		if !static {
+			cols = nil
+			rows, err := ro.Query("SELECT name FROM pragma_table_info('" + t + "')")
+			if err != nil {
+				return nil, err
+			}
+			for rows.Next() {
+				var n string
+				rows.Scan(&n)
+				cols = append(cols, n)
+			}
+			rows.Close()
+			ceDynCols[t] = cols
+			if len(cols) == 0 { // the table does not exist (yet)
+				out[t] = map[int64][]ceCell{}
+				continue
+			}
+		}
 		var sel []string
-		for _, c := range ceCols[t] {
+		for _, c := range cols {
 			sel = append(sel, "typeof("+c+")", "quote("+c+")")
 		}
 		rows, err := ro.Query("SELECT rowid," + strings.Join(sel, ",") + " FROM " + t + " ORDER BY rowid")
@@ -267,7 +300,7 @@ func ceDump(ro *sql.DB) (ceSnap, error) {
 		m := map[int64][]ceCell{}
 		for rows.Next() {
 			var id int64
-			cells := make([]ceCell, len(ceCols[t]))
+			cells := make([]ceCell, len(cols))
 			dst := []any{&id}
 			for i := range cells {
 				dst = append(dst, &cells[i].Typ, &cells[i].Q)
@@ -342,7 +375,7 @@ func ceRowDiff(t string, stored []ceCell, row *proto.CDCRow) string {
 		return "columns"
 	}
 	for i := range stored {
-		if !ceCellEq(ceCols[t][i], stored[i], ceCellOf(row.Values[i])) {
+		if !ceCellEq(ceColsOf(t)[i], stored[i], ceCellOf(row.Values[i])) {
 			return "type=" + stored[i].Typ
 		}
 	}
@@ -378,8 +411,14 @@ func ceShadowApply(sh ceSnap, g *proto.CDCIndexedEventGroup, idsOnly bool) strin
 			return "table=" + ev.Table
 		}
 		op := ceOpName(ev.Op)
+		if ev.Error != "" {
+			return "event-error:op=" + op
+		}
 		if !idsOnly {
-			if !reflect.DeepEqual(ev.ColumnNames, ceCols[ev.Table]) {
+			if !reflect.DeepEqual(ev.ColumnNames, ceColsOf(ev.Table)) {
+				if os.Getenv("CE_DEBUG") != "" {
+					fmt.Fprintf(os.Stderr, "column names of event %v, table has %v\n", ev.ColumnNames, ceColsOf(ev.Table))
+				}
 				return "column-names:op=" + op
 			}
 		} else if ev.OldRow != nil || ev.NewRow != nil {
@@ -441,7 +480,7 @@ func ceShadowApply(sh ceSnap, g *proto.CDCIndexedEventGroup, idsOnly bool) strin
 
 // ceSnapDiff compares the shadow with the real rows; tables limited by filter.
 func ceSnapDiff(sh, real ceSnap, filter, idsOnly bool) string {
-	for _, t := range []string{"a", "b"} {
+	for _, t := range ceAllTables() {
 		if filter && t != "a" {
 			continue
 		}
@@ -454,7 +493,10 @@ func ceSnapDiff(sh, real ceSnap, filter, idsOnly bool) string {
 				continue
 			}
 			for i := range r {
-				if !ceCellEq(ceCols[t][i], r[i], s[i]) {
+				if i >= len(s) { // a column added by a schema change of the same commit sequence
+					break
+				}
+				if !ceCellEq(ceColsOf(t)[i], r[i], s[i]) {
 					return "value:after:type=" + r[i].Typ
 				}
 			}
@@ -516,6 +558,9 @@ func ceOpenEnv(dir string) (*ceEnv, error) {
 		return nil, err
 	}
 	if err := e.setMode(false, false); err != nil {
+		return nil, err
+	}
+	if err := d.RegisterRollbackHook(e.st.RollbackHook); err != nil {
 		return nil, err
 	}
 	// the commit hook the store registers is CDCStreamer.CommitHook; it is wrapped only to take the
@@ -605,17 +650,26 @@ func (e *ceEnv) run(c *ceCase, path string) (*ceRun, error) {
 	if err := e.reset(c.Trig); err != nil {
 		return nil, err
 	}
-	r := &ceRun{}
-	e.capture = true
+	var reqs []*proto.Request
 	tok := int64(0)
 	for _, rq := range c.Sess {
 		req := &proto.Request{Transaction: rq.Tx}
-		var texts []string
 		for _, s := range rq.S {
 			tok++
-			q := ceSQL(s, tok)
-			texts = append(texts, q)
-			req.Statements = append(req.Statements, &proto.Statement{Sql: q})
+			req.Statements = append(req.Statements, &proto.Statement{Sql: ceSQL(s, tok)})
+		}
+		reqs = append(reqs, req)
+	}
+	return e.runReqs(reqs, path)
+}
+
+func (e *ceEnv) runReqs(reqs []*proto.Request, path string) (*ceRun, error) {
+	r := &ceRun{}
+	e.capture = true
+	for _, req := range reqs {
+		var texts []string
+		for _, s := range req.Statements {
+			texts = append(texts, s.Sql)
 		}
 		e.requests++
 		e.st.Reset(uint64(e.requests))
@@ -652,6 +706,96 @@ func (e *ceEnv) run(c *ceCase, path string) (*ceRun, error) {
 	r.final, err = ceDump(e.ro)
 	e.dumps++
 	return r, err
+}
+
+// ---- scenarios outside the spec's alphabet, judged by the shadow rows only: large statements and
+// schema changes in the same transaction as the rows they affect
+type ceScenario struct {
+	name  string
+	setup []string
+	tx    bool
+	sql   []string
+	min   int // at least this many events
+}
+
+func ceScenarios(bulk int) []ceScenario {
+	fill := fmt.Sprintf("INSERT INTO b(rowid,tok,nn,cx,ct,cr) WITH RECURSIVE c(i) AS (SELECT 10 UNION ALL SELECT i+1 FROM c WHERE i < %d) "+
+		"SELECT i, i, 0, CASE i %% 4 WHEN 0 THEN NULL WHEN 1 THEN i*1.5 WHEN 2 THEN 'r'||i ELSE randomblob(9) END, 'r'||i, i+0.25 FROM c", 9+bulk)
+	bulkSQL := []string{fill, "UPDATE b SET cx = tok, cr = NULL WHERE rowid % 2 = 0", "DELETE FROM b WHERE rowid % 3 = 0"}
+	mk := []string{"CREATE TABLE c(id INTEGER PRIMARY KEY, v TEXT)", "INSERT INTO c VALUES(1,'x')"}
+	return []ceScenario{
+		{name: "bulk:tx=false", sql: bulkSQL, min: bulk},
+		{name: "bulk:tx=true", tx: true, sql: bulkSQL, min: bulk},
+		{name: "ddl:create-table+insert:tx=true", tx: true, sql: mk, min: 1},
+		{name: "ddl:add-column+insert:tx=true", setup: mk, tx: true, sql: []string{"ALTER TABLE c ADD COLUMN w INTEGER", "INSERT INTO c VALUES(2,'y',5)"}, min: 1},
+		{name: "ddl:add-column+update:tx=true", setup: mk, tx: true, sql: []string{"ALTER TABLE c ADD COLUMN w INTEGER DEFAULT 7", "UPDATE c SET v='q' WHERE id=1"}, min: 1},
+		{name: "ddl:rename-column+update:tx=true", setup: mk, tx: true, sql: []string{"ALTER TABLE c RENAME COLUMN v TO vv", "UPDATE c SET vv='q' WHERE id=1"}, min: 1},
+		{name: "ddl:add-column-then-insert:tx=false", setup: mk, sql: []string{"ALTER TABLE c ADD COLUMN w INTEGER", "INSERT INTO c VALUES(2,'y',5)"}, min: 1},
+		{name: "ddl:add-column-in-earlier-request+insert:tx=false", setup: append(append([]string{}, mk...), "ALTER TABLE c ADD COLUMN w INTEGER"), sql: []string{"INSERT INTO c VALUES(2,'y',5)"}, min: 1},
+		{name: "ddl:none+insert:tx=true", setup: mk, tx: true, sql: []string{"INSERT INTO c VALUES(2,'y')", "UPDATE c SET v='z'"}, min: 3},
+	}
+}
+
+func (e *ceEnv) runScenarios(w *ndWriter, stat map[string]int, bulk int) error {
+	ceDynTables = []string{"c"}
+	defer func() { ceDynTables = nil }()
+	for _, sc := range ceScenarios(bulk) {
+		for _, ids := range []bool{false, true} {
+			if err := e.setMode(false, ids); err != nil {
+				return err
+			}
+			if err := e.reset(false); err != nil {
+				return err
+			}
+			e.d.VerifRWExec("DROP TABLE IF EXISTS c")
+			for _, q := range sc.setup {
+				if err := e.d.VerifRWExec(q); err != nil {
+					return fmt.Errorf("%s: %w", q, err)
+				}
+			}
+			e.drain()
+			e.commits = e.commits[:0]
+			req := &proto.Request{Transaction: sc.tx}
+			for _, q := range sc.sql {
+				req.Statements = append(req.Statements, &proto.Statement{Sql: q})
+			}
+			r, err := e.runReqs([]*proto.Request{req}, "req")
+			if err != nil {
+				return err
+			}
+			stat["scenario_runs"]++
+			n := 0
+			for _, g := range r.groups {
+				n += len(g.Events)
+			}
+			stat["scenario_events"] += n
+			key, detail := ceShadowJudge(r, false, ids)
+			if key == "" && n < sc.min {
+				key, detail = "missing:events", fmt.Sprintf("%d events delivered, at least %d rows changed", n, sc.min)
+			}
+			for _, res := range r.results[0] {
+				if res != "ok" && key == "" {
+					key, detail = "scenario-failed", "a statement of the scenario failed"
+				}
+			}
+			if key == "" && !ids {
+				if a := ceJSONCheck(r.groups); a != "" {
+					key, detail = a, "JSON rendering of the events differs from the event values"
+				}
+			}
+			if key != "" {
+				stat["mismatches"]++
+				got, _ := ceAbstract(r.groups)
+				if len(got) > 0 && len(got[0]) > 6 {
+					got = [][]ceEv{got[0][:6]}
+				}
+				w.Write(map[string]any{"key": "cdcev:" + sc.name + ":" + key + ":mode=" + ceModeName(false, ids), "detail": detail, "path": "req",
+					"filter": false, "ids": ids, "trig": false, "sess": []any{}, "sql": r.sql, "results": r.results, "want": "rows before/after each commit", "asis": nil, "got": got})
+			}
+		}
+	}
+	e.d.VerifRWExec("DROP TABLE IF EXISTS c")
+	return e.setMode(false, false)
 }
 
 // ---------------------------------------------------------------- judging
@@ -813,7 +957,14 @@ func ceJudge(c *ceCase, r *ceRun, filter, ids bool) (key, detail string, got [][
 		}
 		return "cdcev:" + ceDiffKey(got, want) + mode, "delivered groups differ from the spec's", got
 	}
-	// shadow rows: every commit's group transforms the rows before it into the rows after it
+	if key, detail := ceShadowJudge(r, filter, ids); key != "" {
+		return "cdcev:" + key + mode, detail, got
+	}
+	return "", "", got
+}
+
+// ceShadowJudge: every commit's group transforms the rows before it into the rows after it.
+func ceShadowJudge(r *ceRun, filter, ids bool) (key, detail string) {
 	gi := 0
 	for i, cm := range r.commits {
 		post := r.final
@@ -823,21 +974,21 @@ func ceJudge(c *ceCase, r *ceRun, filter, ids bool) (key, detail string, got [][
 		sh := cm.pre.clone()
 		if cm.group {
 			if gi >= len(r.groups) {
-				return "cdcev:missing:group-not-delivered" + mode, "a commit with pending events delivered no group", got
+				return "missing:group-not-delivered", "a commit with pending events delivered no group"
 			}
 			if a := ceShadowApply(sh, r.groups[gi], ids); a != "" {
-				return "cdcev:" + a + mode, fmt.Sprintf("group %d does not apply to the rows before its commit", gi+1), got
+				return a, fmt.Sprintf("group %d does not apply to the rows before its commit", gi+1)
 			}
 			gi++
 		}
 		if a := ceSnapDiff(sh, post, filter, ids); a != "" {
-			return "cdcev:" + a + mode, fmt.Sprintf("rows after commit %d differ from rows before + delivered events", i+1), got
+			return a, fmt.Sprintf("rows after commit %d differ from rows before + delivered events", i+1)
 		}
 	}
 	if gi != len(r.groups) {
-		return "cdcev:extra:group-without-commit" + mode, "more groups than flushing commits", got
+		return "extra:group-without-commit", "more groups than flushing commits"
 	}
-	return "", "", got
+	return "", ""
 }
 
 // ceJSONCheck marshals the groups the way the CDC service does and compares the JSON values.
@@ -983,6 +1134,7 @@ func cdcevReplay(args []string) error {
 	every := fs.Int("every", 1, "run the filter / ids-only modes on every n-th case")
 	paths := fs.String("paths", "req,exec", "")
 	traceMax := fs.Int("tracemax", 1<<30, "at most this many trace lines")
+	bulk := fs.Int("bulk", 0, "also run the bulk / schema-change scenarios with this many rows")
 	fs.Parse(args)
 	cases, err := ceReadCases(*in)
 	if err != nil {
@@ -1058,6 +1210,11 @@ func cdcevReplay(args []string) error {
 					samples = append(samples, map[string]any{"sql": r.sql, "delivered": got})
 				}
 			}
+		}
+	}
+	if *bulk > 0 {
+		if err := e.runScenarios(w, stat, *bulk); err != nil {
+			return err
 		}
 	}
 	stat["cases"] = len(cases)
